@@ -78,6 +78,7 @@ def brace_traps(piece):
     return out
 
 
+FALSY = [0, 0.0, False, '', [], {}]
 WIRE_KEYS = ['name', 'value', 'id', 'args', 'kwargs', 'meta', 'errors', 'channels', 'success', 'failure', 'notify']
 STRUCT_STRINGS = ['closing } first', 'x}y', '{0}} and {{1}', ']"}', 'a{2}}', '}', '[{"name": 1}]', ', : " \\ \' [ ] {',
                   '~ ~~ }~', '"value": "name":', '}  ', '{"id": 0, "name": "x"}~~']
@@ -496,6 +497,12 @@ class World:
                 val.setdefault('sid', sid)
         elif v == 4:
             val = r.choice(['closing } first %d' % sid, 'x}y %d' % sid, ['a{2}} %d' % sid, {'k': '}'}]])
+        elif v == 6:      # a falsy result that is not None
+            val = r.choice(FALSY)
+        elif 60 <= v < 60 + len(FALSY):      # harness only: each falsy value
+            val = FALSY[v - 60]
+        elif v == 7:      # harness only: a result of more than 64 KiB
+            val = {'blob': _text(r, r.randint(70000, 90000)), 'sid': sid}
         elif v == 5:      # harness only: strings full of structural characters
             val = [sid] + r.sample(STRUCT_STRINGS, 4) + [{'fmt': '{0}} and {{1}', 'k': 'x}y'}]
         else:
@@ -512,7 +519,7 @@ class World:
         name = {'ok': 'work', 'sblk': 'deny_s', 'rblk': 'deny_r'}[fwk]
         args = [sid]
         kwargs = {}
-        pool = [None, True, 0, -17, 3.25, 'txt', 'café ☃', [1, [2, 'three']], {'a': {'b': [None, False]}},
+        pool = [None, True, 0, 0.0, False, '', [], {}, -17, 3.25, 'txt', 'café ☃', [1, [2, 'three']], {'a': {'b': [None, False]}},
                 'quote " and \\ backslash', '"value" : not a key', '~ ~~ tildes apart']
         for _ in range(r.randint(0, 3)):
             args.append(r.choice(pool))
@@ -520,6 +527,8 @@ class World:
             kwargs[r.choice(['x', 'y', 'opt', 'n1'])] = r.choice(pool)
         if size == 'b':
             args.append(_text(r, r.randint(4200, 4400)))
+        elif size == 'h':      # harness only: a packet of more than 64 KiB (after escaping), many 4 KiB reads
+            args.append(_text(r, r.randint(70000, 90000)) if r.random() < 0.6 else '~' * r.randint(11500, 14000))
         if pay == 'tilde':
             if size == 'b':
                 # inner delimiter after about one third of the packet
